@@ -230,6 +230,64 @@ def eval_shard(args):
     return sh, [(i, "corr") for i in cf], [(i, "holds") for i in hf], log[-500:], time.time() - t0
 
 
+def explore(pid, P, tier, seed, scratch, ok, tag=""):
+    """One pass of the drivers and of the model evaluation for one seed.
+    Returns (stats_all, corr_fail, holds_fail, impl_fail, ncases, violations)."""
+    violations = []
+    stats_all, shards = [], []
+    race = tier == "thorough" and P.get("race")
+    if race:
+        build_go([P["binary"]], race=True)
+    for drv in P["drivers"]:
+        out = os.path.join(scratch, drv + tag)
+        os.makedirs(out)
+        exe = os.path.join(BUILD, P["binary"] + ("-race" if race else ""))
+        cmd = [exe, "-out", out, "-seed", str(seed), "-tier", tier, "-repo", REPO, drv]
+        env = goenv()
+        env["VERIF_PROPERTY"] = pid
+        rc, log = run(cmd, cwd=out, env=env, timeout=P.get("driver_timeout", 3000))
+        sp = os.path.join(out, "stats.json")
+        if rc not in (0,) or not os.path.exists(sp):
+            if "WARNING: DATA RACE" in log and "/repo/" in log or "containerd/nri" in log and "DATA RACE" in log:
+                violations.append(("data-race", {"what": "the race detector reported a data race inside containerd/nri: the model's atomicity assumption is not met", "log": log[-6000:]}, False))
+                continue
+            raise HarnessError("driver %s failed (rc=%s):\n%s" % (drv, rc, log[-6000:]))
+        st = json.load(open(sp))
+        st["_driver"], st["_out"] = drv, out
+        stats_all.append(st)
+        for sh in st.get("shards", []):
+            if P.get("streams") and sh["stream"] not in P["streams"]:
+                continue
+            shards.append((out, sh, P.get("holds_preds")))
+
+    # model evaluation (only when the cone compiled)
+    corr_fail, holds_fail, eval_errors, ncases = [], [], [], 0
+    if ok:
+        with concurrent.futures.ThreadPoolExecutor(max_workers=16) as ex:
+            for sh, cf, hf, log, dt in ex.map(eval_shard, shards):
+                out = [o for o, s, _ in shards if s is sh][0]
+                if cf is None or hf is None:
+                    eval_errors.append("%s: %s" % (sh["file"], log))
+                    continue
+                ncases += sh["cases"]
+                raws = json.load(open(os.path.join(out, sh["json"])))
+                for i, pred in cf:
+                    corr_fail.append({"stream": sh["stream"], "shard": sh["file"], "index": i, "predicate": pred, "seed": seed, "case": raws[i]})
+                for i, pred in hf:
+                    holds_fail.append({"stream": sh["stream"], "shard": sh["file"], "index": i, "predicate": pred, "seed": seed, "case": raws[i]})
+        if eval_errors:
+            raise HarnessError("Coq evaluation of cases failed:\n" + "\n".join(eval_errors)[:6000])
+    impl_fail = []
+    for st in stats_all:
+        for f in st.get("impl_failures") or []:
+            if P.get("streams") and f.get("stream") not in P["streams"] and f.get("stream") not in P.get("impl_streams", []):
+                continue
+            if re.match(r"^C\d\d\d?:", f.get("what", "")) and not f["what"].startswith(pid + ":"):
+                continue  # a shared driver tags its oracle failures with the property they belong to
+            impl_fail.append(f)
+    return stats_all, corr_fail, holds_fail, impl_fail, ncases, violations
+
+
 # ---------------------------------------------------------------- verdicts
 
 def write_replay(pid, tier, seed, kind, detail):
@@ -296,7 +354,6 @@ def main(argv):
 
 
 def decide(pid, P, tier, seed, scratch, t0, replay_sel):
-    violations = []          # (kind, replay detail, has_input)
     notes = []
 
     # -- 1. translators + proofs
@@ -330,58 +387,23 @@ def decide(pid, P, tier, seed, scratch, t0, replay_sel):
         broken.append("forbidden vernacular in the development: " + "; ".join(forbidden[:10]))
         discharged = 0
 
-    # -- 2. implementation runs
-    stats_all, shards = [], []
-    race = tier == "thorough" and P.get("race")
-    if race:
-        build_go([P["binary"]], race=True)
-    for drv in P["drivers"]:
-        out = os.path.join(scratch, drv)
-        os.makedirs(out)
-        exe = os.path.join(BUILD, P["binary"] + ("-race" if race else ""))
-        cmd = [exe, "-out", out, "-seed", str(seed), "-tier", tier, "-repo", REPO, drv]
-        env = goenv()
-        env["VERIF_PROPERTY"] = pid
-        rc, log = run(cmd, cwd=out, env=env, timeout=P.get("driver_timeout", 3000))
-        sp = os.path.join(out, "stats.json")
-        if rc not in (0,) or not os.path.exists(sp):
-            if "WARNING: DATA RACE" in log and "/repo/" in log or "containerd/nri" in log and "DATA RACE" in log:
-                violations.append(("data-race", {"what": "the race detector reported a data race inside containerd/nri: the model's atomicity assumption is not met", "log": log[-6000:]}, False))
-                continue
-            raise HarnessError("driver %s failed (rc=%s):\n%s" % (drv, rc, log[-6000:]))
-        st = json.load(open(sp))
-        st["_driver"], st["_out"] = drv, out
-        stats_all.append(st)
-        for sh in st.get("shards", []):
-            if P.get("streams") and sh["stream"] not in P["streams"]:
-                continue
-            shards.append((out, sh, P.get("holds_preds")))
+    # -- 2./3. implementation runs and model evaluation
+    stats_all, corr_fail, holds_fail, impl_fail, ncases, violations = explore(pid, P, tier, seed, scratch, ok)
 
-    # -- 3. model evaluation (only when the cone compiled)
-    corr_fail, holds_fail, eval_errors, ncases = [], [], [], 0
-    if ok:
-        with concurrent.futures.ThreadPoolExecutor(max_workers=16) as ex:
-            for sh, cf, hf, log, dt in ex.map(eval_shard, shards):
-                out = [o for o, s, _ in shards if s is sh][0]
-                if cf is None or hf is None:
-                    eval_errors.append("%s: %s" % (sh["file"], log))
-                    continue
-                ncases += sh["cases"]
-                raws = json.load(open(os.path.join(out, sh["json"])))
-                for i, pred in cf:
-                    corr_fail.append({"stream": sh["stream"], "shard": sh["file"], "index": i, "predicate": pred, "case": raws[i]})
-                for i, pred in hf:
-                    holds_fail.append({"stream": sh["stream"], "shard": sh["file"], "index": i, "predicate": pred, "case": raws[i]})
-        if eval_errors:
-            raise HarnessError("Coq evaluation of cases failed:\n" + "\n".join(eval_errors)[:6000])
-    impl_fail = []
-    for st in stats_all:
-        for f in st.get("impl_failures") or []:
-            if P.get("streams") and f.get("stream") not in P["streams"] and f.get("stream") not in P.get("impl_streams", []):
-                continue
-            if re.match(r"^C\d\d\d?:", f.get("what", "")) and not f["what"].startswith(pid + ":"):
-                continue  # a shared driver tags its oracle failures with the property they belong to
-            impl_fail.append(f)
+    # -- 3b. extended search: a broken proof or a broken correspondence with no failing input so far ->
+    # look for a concrete failing input with further seeds (the property's predicate on the implementation)
+    searched_extra = 0
+    if (not proofs_ok or corr_fail) and not holds_fail and not impl_fail and not replay_sel:
+        for k in range(1, int(os.environ.get("VERIF_EXTRA_SEEDS") or 4) + 1):
+            try:
+                st2, cf2, hf2, if2, n2, _ = explore(pid, P, tier, seed + 1000 * k, scratch, ok, tag="_x%d" % k)
+            except HarnessError:
+                break
+            searched_extra += n2 + sum(s["evaluations"] for s in st2)
+            if hf2 or if2:
+                holds_fail, impl_fail = hf2, if2
+                notes.append("failing input found by the extended search with seed %d" % (seed + 1000 * k))
+                break
 
     # -- 4. verdict
     known = load_known()
@@ -405,11 +427,11 @@ def decide(pid, P, tier, seed, scratch, t0, replay_sel):
         out_lines.append("VIOLATION property=%s replay=%s" % (pid, path))
         rc = 1
     elif not proofs_ok:
-        path = write_replay(pid, tier, seed, "broken-proof", {"what": "a proof obligation of the property no longer checks against the regenerated model", "broken": broken, "searched_cases": ncases + sum(s["evaluations"] for s in stats_all)})
+        path = write_replay(pid, tier, seed, "broken-proof", {"what": "a proof obligation of the property no longer checks against the regenerated model", "broken": broken, "searched_cases": ncases + sum(s["evaluations"] for s in stats_all) + searched_extra})
         out_lines.append("VIOLATION property=%s replay=%s no-failing-input-found" % (pid, path))
         rc = 1
     elif corr_fail:
-        path = write_replay(pid, tier, seed, "broken-correspondence", {"what": "model and implementation disagree on the projected observable; the property's own predicate is true on every explored case", "correspondence": P.get("corr_name", ""), "disagreements": corr_fail[:5], "count": len(corr_fail)})
+        path = write_replay(pid, tier, seed, "broken-correspondence", {"what": "model and implementation disagree on the projected observable; the property's own predicate is true on every explored case", "correspondence": P.get("corr_name", ""), "disagreements": corr_fail[:5], "count": len(corr_fail), "searched_cases_extended": searched_extra})
         out_lines.append("VIOLATION property=%s replay=%s no-failing-input-found" % (pid, path))
         rc = 1
     for v in violations:
